@@ -112,3 +112,51 @@ class LoopRun:
 
 def tmpdir(prefix):
     return tempfile.TemporaryDirectory(prefix=prefix, dir=TMP_ROOT)
+
+
+class VirtualLoop(asyncio.SelectorEventLoop):
+    """Event loop with a virtual clock: when nothing is ready it jumps to the next scheduled timer instead of sleeping."""
+
+    def __init__(self):
+        super().__init__()
+        self._vt = 1000.0
+
+    def time(self):
+        return self._vt
+
+    def _run_once(self):
+        if not self._ready and self._scheduled:
+            # drop cancelled timers at the head, then jump
+            import heapq
+            while self._scheduled and self._scheduled[0]._cancelled:
+                h = heapq.heappop(self._scheduled)
+                h._scheduled = False
+                self._timer_cancelled_count = max(0, self._timer_cancelled_count - 1)
+            if self._scheduled:
+                when = self._scheduled[0]._when
+                if when > self._vt:
+                    self._vt = when
+        super()._run_once()
+
+
+class VirtualLoopRun(LoopRun):
+    """LoopRun on a VirtualLoop (no real waiting)."""
+
+    def run(self, coro_fn, timeout=None):
+        loop = VirtualLoop()
+        self.loop = loop
+        loop.set_exception_handler(self._handler)
+        try:
+            asyncio.set_event_loop(loop)
+            return loop.run_until_complete(coro_fn())
+        finally:
+            try:
+                pending = [t for t in asyncio.all_tasks(loop) if not t.done()]
+                for t in pending:
+                    t.cancel()
+                if pending:
+                    loop.run_until_complete(asyncio.gather(*pending, return_exceptions=True))
+                loop.run_until_complete(loop.shutdown_asyncgens())
+            finally:
+                asyncio.set_event_loop(None)
+                loop.close()
